@@ -298,6 +298,7 @@ func runC02(e *Engine, r *Report) {
 	ruleRaftPredicates(e, r, "upToDate", "matchTerm")
 	borrow(e, r, "C03", "GD-vote-grant", "GD-campaign", "GD-campaign-pred", "GD-leader", "GD-tally", "WMW-term", "WMW-vote-reset")
 	ruleResetProgress(e, r)
+	ruleBootstrapSorted(e, r)
 	borrow(e, r, "C08", "OWN-members-copy", "TBL-ssmeta")
 }
 
